@@ -66,6 +66,78 @@ def arr_pre_post_summary(it, a, k):
     return pre, post
 
 
+def replay_prepost(vals, oid):
+    bad = []
+    for T in range(1, 10):
+        for p in range(T):
+            a = np.arange(2 * T, dtype=float).reshape(2, T) + 1
+            pre, post = W.arr_pre_post(a.copy(), np.array([p, (p + 1) % T]))
+            for r_, pk in ((0, p), (1, (p + 1) % T)):
+                wpre = np.where(np.arange(T) < pk, a[r_], np.nan)
+                wpost = np.where(np.arange(T) >= pk, a[r_], np.nan)
+                if not (np.array_equal(pre[r_], wpre, equal_nan=True) and np.array_equal(post[r_], wpost, equal_nan=True)):
+                    bad.append({"T": T, "peak": pk})
+    return {"failed": bool(bad), "examples": bad[:3]}
+
+
+@harness(PROPERTY, "arr_pre_post", functions=["ibldsp.waveforms:arr_pre_post"], replay=replay_prepost,
+         clause="pre/post-peak masking: the pre array keeps the samples strictly before each waveform's peak, the post array those from the peak on; everything else is NaN")
+def h_prepost(H):
+    from pyvc import interp as I
+    S = H.session("arr_pre_post")
+    FN = W.arr_pre_post
+
+    def body(it):
+        n, T = z3.Ints("nwav T")
+        it.ctx.assume(z3.And(n >= 1, T >= 1))
+        ap = A.fresh_array("arr_peak", "float64", (n, T))
+        a0 = ap.snapshot()
+        q = [z3.Int(fresh_name("q")) for _ in range(2)]
+        it.ctx.assume(z3.ForAll(q, ap.uf(*q) != NAN))
+        peak = A.fresh_array("indx_peak", "int64", (n,), ranged=False)
+        A.assume_range(peak, 0, T - 1)
+        node, filename = I.SOURCES.funcdef(FN)
+        it.session.note_function(FN)
+        env = I.Env(None, FN.__globals__, qualname="arr_pre_post", filename=filename)
+        env.funcnode = node
+        env.vars.update(dict(arr_peak=ap, indx_peak=peak))
+        it.ctx.func = env.qualname
+        ret = None
+        lemma_done = False
+        i, t = z3.Ints("i t")
+        for st in node.body:
+            try:
+                it.exec_stmt(st, env)
+            except I.ReturnEx as e:
+                ret = e.v
+                break
+            cl = getattr(it.ctx, "cumsum_log", [])
+            if cl and not lemma_done:
+                lemma_done = True
+                c = cl[-1]
+                f = c["f"]
+                # what is summed: an indicator of the peak position (0 elsewhere)
+                it.ctx.oblige("prepost.indicator_of_the_peak", A.forall([i, t], lambda: z3.Implies(z3.And(i >= 0, i < n, t >= 0, t < T), c["input"]((i, t)) == z3.If(t == peak.read((i,)), z3.RealVal(1), z3.RealVal(0)))), "post",
+                              "the running sum is taken over an array that is 1 at each waveform's peak and 0 elsewhere")
+                claim = lambda ii, tt: f(ii, tt) == z3.If(tt >= peak.read((ii,)), z3.RealVal(1), z3.RealVal(0))     # noqa
+                # induction on t (the principle is applied here; base and step are obligations)
+                it.ctx.oblige("prepost.lemma.running_sum.base", A.forall([i], lambda: z3.Implies(z3.And(i >= 0, i < n), claim(i, z3.IntVal(0)))), "lemma", assume=False)
+                it.ctx.oblige("prepost.lemma.running_sum.step", A.forall([i, t], lambda: z3.Implies(z3.And(i >= 0, i < n, t >= 1, t < T, claim(i, t - 1)), claim(i, t))), "lemma", assume=False)
+                ii, tt = z3.Int(fresh_name("i")), z3.Int(fresh_name("t"))
+                it.ctx.assume(z3.ForAll([ii, tt], z3.Implies(z3.And(ii >= 0, ii < n, tt >= 0, tt < T), claim(ii, tt)), patterns=[f(ii, tt)]))
+        if not lemma_done or not (isinstance(ret, tuple) and len(ret) == 2):
+            raise I.Unsupported("cannot identify the running sum / the two returned arrays of arr_pre_post()")
+        pre, post = ret
+        shp = lambda x: z3.And(z3.BoolVal(x.ndim == 2 and x.dtype.kind == "f"), A.T(x.shape[0]) == n, A.T(x.shape[1]) == T)     # noqa
+        it.ctx.oblige("prepost.shapes", z3.And(shp(pre), shp(post)), "post")
+        it.ctx.oblige("prepost.pre", A.forall([i, t], lambda: z3.Implies(z3.And(i >= 0, i < n, t >= 0, t < T), pre.read((i, t)) == z3.If(t < peak.read((i,)), a0((i, t)), NAN))), "post",
+                      "pre[i,t] is the sample when t is strictly before the peak of waveform i, NaN from the peak on", assume=False)
+        it.ctx.oblige("prepost.post", A.forall([i, t], lambda: z3.Implies(z3.And(i >= 0, i < n, t >= 0, t < T), post.read((i, t)) == z3.If(t >= peak.read((i,)), a0((i, t)), NAN))), "post",
+                      "post[i,t] is the sample from the peak on, NaN before it", assume=False)
+        it.ctx.oblige("prepost.input_untouched", A.forall([i, t], lambda: z3.Implies(z3.And(i >= 0, i < n, t >= 0, t < T), ap.read((i, t)) == a0((i, t)))), "post", assume=False)
+    S.explore(body)
+
+
 @harness(PROPERTY, "tip_trough_order", functions=["ibldsp.waveforms:find_trough", "ibldsp.waveforms:find_tip"],
          clause="tip precedes peak which does not follow trough; extraction succeeds whenever the peak is not on the first sample")
 def h_order(H):
@@ -93,6 +165,56 @@ def h_order(H):
         r0, t0 = z3.Int(fresh_name("i0")), z3.Int(fresh_name("t0"))
         it.ctx.assume(z3.And(r0 >= 0, r0 < n, t0 >= peak.read((r0,)), t0 < T))
         it.ctx.oblige("order.trough_is_max_after_peak", ap.read((r0, t0)) <= ap.read((r0, tro.read((r0,)))), "post", "the trough is the largest (sign-normalised) value from the peak on", assume=False)
+    S.explore(body)
+
+
+def replay_halfpeak(vals, oid):
+    bad = native_half_peak(np.random.default_rng(11), 40)
+    bad = [b for b in bad if b[1] != "swap_positive_trough"]
+    return {"failed": bool(bad), "examples": [repr(b) for b in bad[:3]]}
+
+
+@harness(PROPERTY, "half_peak_point", functions=["ibldsp.waveforms:half_peak_point"], replay=replay_halfpeak,
+         clause="the half-peak points are the nearest samples on either side of the peak at which the trace is back within half of the peak value (whenever such samples exist)")
+def h_halfpeak(H):
+    S = H.session("half_peak")
+
+    def body(it):
+        n, T = z3.Ints("nwav T")
+        it.ctx.assume(z3.And(n >= 1, T >= 2))
+        ap = A.fresh_array("arr_peak", "float64", (n, T))           # sign-normalised: the peak is the negative extremum
+        q = [z3.Int(fresh_name("q")) for _ in range(2)]
+        it.ctx.assume(z3.ForAll(q, ap.uf(*q) != NAN))
+        peak = A.fresh_array("peak_time_idx", "int64", (n,), ranged=False)
+        A.assume_range(peak, 0, T - 1)
+        pv = A.fresh_array("peak_val", "float64", (n,))
+        inv = A.fresh_array("invert_sign_peak", "float64", (n,))
+        it.session.contracts[W.arr_pre_post] = arr_pre_post_summary          # proved by harness arr_pre_post
+        df = pdmodel.SFrame({"peak_time_idx": peak, "peak_val": pv, "invert_sign_peak": inv})
+        df = run_function(it, W.half_peak_point, [ap, df])
+        post, pre = df["half_peak_post_time_idx"].to_numpy(), df["half_peak_pre_time_idx"].to_numpy()
+        vpost, vpre = df["half_peak_post_val"].to_numpy(), df["half_peak_pre_val"].to_numpy()
+        i = z3.Int(fresh_name("i0"))
+        t = z3.Int(fresh_name("t0"))
+        it.ctx.assume(z3.And(i >= 0, i < n, t >= 0, t < T))
+        # proof hints: instances of the arg-max specification (already hypotheses) at the positions the argument needs; the arrays searched on the
+        # pre side are indicator / mirrored arrays in which the solver finds no term to instantiate the specification on by itself
+        from pyvc import models as M
+        ams = [e for e in it.ctx.reduce_log if e["name"] == "argmax" and len(e["in_shape"]) == 2 and e["axis"] == 1]
+        for e in ams:
+            r_e = e["out"](i)
+            for kterm in (t, T - 1 - t, r_e, T - 1 - r_e) + tuple(x for e2 in ams for x in (e2["out"](i), T - 1 - e2["out"](i))):
+                it.ctx.assume(M.argmax_instance(e, (i,), kterm))
+        half = (pv.read((i,)) / 2) * inv.read((i,))
+        back = lambda tt: ap.read((i, tt)) - half > 0          # noqa  the (sign-normalised) trace is back above half of the peak
+        p_ = peak.read((i,))
+        it.ctx.oblige("half.indices_in_range", z3.And(post.read((i,)) >= 0, post.read((i,)) < T, pre.read((i,)) >= 0, pre.read((i,)) < T), "post")
+        # post: the first sample from the peak on where the trace is back within half (when there is one)
+        it.ctx.oblige("half.post.nearest_after_peak", z3.Implies(z3.And(t >= p_, back(t)), z3.And(post.read((i,)) >= p_, post.read((i,)) <= t, back(post.read((i,))))), "post",
+                      "if the trace is back within half at some sample t from the peak on, the reported point is such a sample and none of them is nearer to the peak (arbitrary waveform i, sample t)", assume=False)
+        it.ctx.oblige("half.pre.nearest_before_peak", z3.Implies(z3.And(t < p_, back(t)), z3.And(pre.read((i,)) < p_, pre.read((i,)) >= t, back(pre.read((i,))))), "post",
+                      "same on the other side: the last sample before the peak where the trace is within half", assume=False)
+        it.ctx.oblige("half.values_at_the_points", z3.And(vpost.read((i,)) == ap.read((i, post.read((i,)))) * inv.read((i,)), vpre.read((i,)) == ap.read((i, pre.read((i,)))) * inv.read((i,))), "post", assume=False)
     S.explore(body)
 
 
